@@ -200,9 +200,10 @@ let run_case (h : harness) (c : case) (dist : (string, int) Hashtbl.t) : fail op
   | CFill n ->
     bump dist "outbound-lru-fill";
     let ops = OReset n :: L.init (n + 2) (fun i -> OResolve (None, fill_topic i)) in
-    (* large fills: the first n+1 operations (reset + n distinct topics) run on the implementation
-       under the monitor only; the model resumes from the state that AliasProofs (lru_fill_state) proves
-       is reached: aliases 1..n in insertion order, most recent first *)
+    (* large fills (n > 2000): the first n+1 operations (reset + n distinct topics) run on the implementation
+       under the monitor only (the list-based model is quadratic); the model resumes from the state it
+       reaches after such a fill — aliases 1..n in insertion order, most recent first — which the lock-step
+       runs with n <= 2000 (e.g. corpus line `F 3`) exercise step by step *)
     let big = n > 2000 in
     let filled = OLru (n_of_int n, n_of_int n, L.rev (L.init n (fun i -> (bytes_of_string (fill_topic i), n_of_int (i + 1))))) in
     let (f, e) =
